@@ -30,8 +30,8 @@ Qed.
 
 Lemma ptxt_inl i : inl_sup i = true -> ptxt (r_inl i) = flat (inl_syms i).
 Proof.
-  induction i as [t| | |t|t|t|k l IH|v ps IH] using inl_ind'; intro H; try discriminate H;
-    try reflexivity.
+  induction i as [t| |b| |t|t|t|k l IH|v ps IH] using inl_ind'; intro H; try discriminate H;
+    try reflexivity; try (destruct b; reflexivity).
   - unfold ptxt. destruct t; simpl; rewrite ?app_nil_r; reflexivity.
   - rewrite ptxt_wrap. simpl in H. apply ptxt_inls; assumption.
 Qed.
@@ -62,8 +62,9 @@ Qed.
 
 Lemma iter_inl_nil f i : blockf f -> inl_sup i = true -> flat_map (iter f) (r_inl i) = [].
 Proof.
-  intro Hf. induction i as [t| | |t|t|t|k l IH|v ps IH] using inl_ind'; intro H; try discriminate H;
-    try (destruct Hf as [-> | [-> | ->]]; reflexivity).
+  intro Hf. induction i as [t| |b| |t|t|t|k l IH|v ps IH] using inl_ind'; intro H; try discriminate H;
+    try (destruct Hf as [-> | [-> | ->]]; reflexivity);
+    try (destruct b; destruct Hf as [-> | [-> | ->]]; reflexivity).
   simpl in H. pose proof (iter_inls_nil f l IH H) as E.
   destruct Hf as [-> | [-> | ->]]; destruct k; simpl; rewrite ?app_nil_r; exact E.
 Qed.
